@@ -30,8 +30,8 @@ ASSUMPTIONS = [
     "AuxData uses types this API has codecs for (unknown types are property C14)",
 ]
 REQUIRED_TAGS = {
-    "quick": ["second-generation-edits", "modules>=2", "b:address-0", "b:value-0", "b:label-all-false", "b:label-none", "b:unknown-attr", "aux:ir", "aux:module", "ref:symaddraddr"],
-    "thorough": ["second-generation-edits", "modules>=2", "b:address-0", "b:value-0", "b:label-all-false", "b:label-none", "b:unknown-attr", "aux:ir", "aux:module", "ref:symaddraddr"],
+    "quick": ["foreign-ir-activity", "ref:entry-in-later-module", "ref:entry-in-earlier-module", "second-generation-edits", "modules>=2", "b:address-0", "b:value-0", "b:label-all-false", "b:label-none", "b:unknown-attr", "aux:ir", "aux:module", "ref:symaddraddr"],
+    "thorough": ["foreign-ir-activity", "ref:entry-in-later-module", "ref:entry-in-earlier-module", "second-generation-edits", "modules>=2", "b:address-0", "b:value-0", "b:label-all-false", "b:label-none", "b:unknown-attr", "aux:ir", "aux:module", "ref:symaddraddr"],
 }
 
 
